@@ -31,6 +31,7 @@ def run(ck):
     ck.rule("C09-O3", "name writer (base.date.index[.suffix], date yyyy-MM-dd) and both name readers have the same fields, order and separators in both suffix variants, selected by the same test")
     ck.rule("C09-O4", "the rotated file is produced by the static two-argument QFile::rename only")
     ck.rule("C09-O5", "daily rotation iff message date != file date and file non-empty; with daily rotation the file is dated with the record's date on every path before the write; start-up date from the file's mtime iff it exists non-empty")
+    ck.rule("C09-O6", "the active file is dated (m_currentLogDate written) before any path can reach rotate(): otherwise rotate() names the old content after today's clock")
     DF = RP + "::m_currentLogDate"
     rt = S.m["rotate"]
     g = S.g(rt)
@@ -55,57 +56,10 @@ def run(ck):
         ck.ob("C09-O1", sitestr(rt), okv, "with a valid file date the name carries m_currentLogDate" if okv else "with a valid file date the name carries %s" % describe(vv), key="rotate|date-not-file-date")
         oki = is_call(vi, "QDate::currentDate") or is_this_field(vi, DF)
         ck.ob("C09-O1", sitestr(rt), oki, "fallback only when the file date is invalid: %s" % describe(vi), key="rotate|date-fallback")
+    dated_before_rotation(ck, S, DF)
     # ---- O2
     fi = S.m["findNextIndexForDate"]
-    gf = S.g(fi)
-    rs = returns(fi)
-    ck.require(len(rs) == 1, "findNextIndexForDate has %d returns" % len(rs))
-    locs = {}
-    for n in fi.find(lambda n: n.get("k") == "decl"):
-        for v in n.get("vars", []):
-            locs[v["decl"]] = v
-    lin = linear(rs[0].get("e"), lambda n: n.get("decl") if n.get("k") == "ref" and n.get("dk") == "local" and n.get("decl") in locs else None)
-    mx = [k for k in (lin or {}) if k]
-    if lin is None or len(mx) != 1 or lin[mx[0]] != 1:
-        ck.ob("C09-O2", sitestr(fi, rs[0]), None, "returned index %s is not max + k" % describe(rs[0].get("e")))
-    else:
-        k = lin.get("", 0)
-        ck.ob("C09-O2", sitestr(fi, rs[0]), k >= 1, "returns the maximum + %d" % k if k >= 1 else "returns the maximum + %d: the highest existing rotated name is reused (rename then fails or, with .gz present, numbering collides)" % k,
-              key="findNextIndexForDate|not-max-plus-one")
-        mdecl = mx[0]
-        ok0 = const_int(locs[mdecl].get("init")) == 0
-        ck.ob("C09-O2", sitestr(fi), ok0, "the maximum starts at 0 (first index is 1)", key="findNextIndexForDate|start")
-        ups = [n for n in fi.find(lambda n: n.get("k") == "binop" and n.get("op") == "=" and is_ref_to(n.get("lhs"), mdecl))]
-        loop = [l for l in find_loops(fi) if l.get("k") == "rangefor"]
-        okm = False
-        detail = "%d updates, %d loops" % (len(ups), len(loop))
-        if len(ups) == 1 and len(loop) == 1:
-            u = ups[0]
-            idxv = skip_copies(u.get("rhs"))
-            isrc = deref_local(fi, idxv)
-            cap = [x for x in walk(isrc) if is_call(x, "QRegularExpressionMatch::captured")]
-            numeric = any(is_call(x, ("QString::toInt", "QString::toLongLong", "QString::toUInt")) for x in walk(isrc))
-            # guard: index > max ; reached for every matching entry
-            us = gf.site_of(u)
-            hm = [x for x in fi.calls("QRegularExpressionMatch::hasMatch")]
-            cond = gf.site_of(loop[0]["desugar"]["cond"])
-            gt = None
-            for c in comparisons_in(fi.body):
-                cf = comparison_form(c, lambda n: "idx" if (idxv.get("k") == "ref" and is_ref_to(n, idxv.get("decl"))) else ("max" if is_ref_to(n, mdecl) else None))
-                if cf and cf[0].get("idx") == 1 and cf[0].get("max") == -1:
-                    gt = (c, cf)
-            if gt is not None and len(hm) == 1 and cap and numeric:
-                c, (f, op) = gt
-                keep_t = gf.projector(atoms((value_pred(fi, hm[0]), True), (lambda n: n.get("id") == c["id"], True)))
-                keep_f = gf.projector(atoms((value_pred(fi, hm[0]), True), (lambda n: n.get("id") == c["id"], False)))
-                hs = gf.site_of(hm[0])
-                a = gf.postdominated(hs, {us}, keep=keep_t) and us not in gf.reach([hs], blocked={cond}, keep=keep_f, include_start=False)
-                b = all(gf.postdominated(hs, {cond}, keep=kp) for kp in (keep_t, keep_f, gf.projector(atom_eq(value_pred(fi, hm[0]), False))))
-                strict = f.get("", 0) in (-1, 0) and op == ">="
-                okm = a and b and strict and const_int(cap[0]["args"][0]) == 1
-                detail = "update-iff-greater=%s, every entry visited=%s, comparison %s" % (a, b, describe(c))
-        ck.ob("C09-O2", sitestr(fi), okm, "running maximum of the numeric captured index over every matching entry (no early exit)" if okm else "maximum computation not recognised/incorrect: %s" % detail,
-              key="findNextIndexForDate|maximum")
+    next_index(ck, S, "C09-O2")
     tpl_next = name_pattern(ck, S, fi, "C09-O2", date_is_class=False)
     # ---- O3 agreement
     gnf = S.m["generateRotatedFileName"]
@@ -317,3 +271,115 @@ def daily(ck, S, DF):
             res[(e_, sz)] = vals
     ok = res[(True, 7)] == ["mtime"] and all(res[k] == ["today"] for k in res if k != (True, 7))
     ck.ob("C09-O5", sitestr(it), ok, "start-up: file date = last-modified date iff the file exists and is non-empty, else today" if ok else "start-up file date: %s" % res, key="init|startup-date")
+
+
+def next_index(ck, S, RULE):
+    """findNextIndexForDate() = 1 + maximum index over every matching directory entry (shared with C05: a reused index
+    makes rotate() overwrite or fail on an existing rotated file)"""
+    F = ck.facts
+    fi = S.m["findNextIndexForDate"]
+    gf = S.g(fi)
+    rs = returns(fi)
+    if len(rs) != 1:
+        inloop = [r for r in rs if enclosing_loops(fi, r)]
+        if inloop:
+            ck.ob(RULE, sitestr(fi, inloop[0]), False, "the scan of the directory returns from inside the loop (%s): the result is the index of the first matching entry in listing order, not the maximum over all entries "
+                  "(names sort '.10' before '.9'), so an existing rotated name is handed out again" % describe(inloop[0]), key="findNextIndexForDate|maximum")
+        else:
+            ck.ob(RULE, sitestr(fi), None, "findNextIndexForDate has %d returns outside the scan loop; idiom not recognised" % len(rs))
+        return
+    locs = {}
+    for n in fi.find(lambda n: n.get("k") == "decl"):
+        for v in n.get("vars", []):
+            locs[v["decl"]] = v
+    lin = linear(rs[0].get("e"), lambda n: n.get("decl") if n.get("k") == "ref" and n.get("dk") == "local" and n.get("decl") in locs else None)
+    mx = [k for k in (lin or {}) if k]
+    if lin is None or len(mx) != 1 or lin[mx[0]] != 1:
+        ck.ob(RULE, sitestr(fi, rs[0]), None, "returned index %s is not max + k" % describe(rs[0].get("e")))
+    else:
+        k = lin.get("", 0)
+        ck.ob(RULE, sitestr(fi, rs[0]), k >= 1, "returns the maximum + %d" % k if k >= 1 else "returns the maximum + %d: the highest existing rotated name is reused (rename then fails or, with .gz present, numbering collides)" % k,
+              key="findNextIndexForDate|not-max-plus-one")
+        mdecl = mx[0]
+        ok0 = const_int(locs[mdecl].get("init")) == 0
+        ck.ob(RULE, sitestr(fi), ok0, "the maximum starts at 0 (first index is 1)", key="findNextIndexForDate|start")
+        ups = [n for n in fi.find(lambda n: n.get("k") == "binop" and n.get("op") == "=" and is_ref_to(n.get("lhs"), mdecl))]
+        loop = [l for l in find_loops(fi) if l.get("k") == "rangefor"]
+        okm = False
+        detail = "%d updates, %d loops" % (len(ups), len(loop))
+        if len(ups) == 1 and len(loop) == 1:
+            u = ups[0]
+            idxv = skip_copies(u.get("rhs"))
+            isrc = deref_local(fi, idxv)
+            cap = [x for x in walk(isrc) if is_call(x, "QRegularExpressionMatch::captured")]
+            numeric = any(is_call(x, ("QString::toInt", "QString::toLongLong", "QString::toUInt")) for x in walk(isrc))
+            # guard: index > max ; reached for every matching entry
+            us = gf.site_of(u)
+            hm = [x for x in fi.calls("QRegularExpressionMatch::hasMatch")]
+            cond = gf.site_of(loop[0]["desugar"]["cond"])
+            gt = None
+            for c in comparisons_in(fi.body):
+                cf = comparison_form(c, lambda n: "idx" if (idxv.get("k") == "ref" and is_ref_to(n, idxv.get("decl"))) else ("max" if is_ref_to(n, mdecl) else None))
+                if cf and cf[0].get("idx") == 1 and cf[0].get("max") == -1:
+                    gt = (c, cf)
+            if gt is not None and len(hm) == 1 and cap and numeric:
+                c, (f, op) = gt
+                keep_t = gf.projector(atoms((value_pred(fi, hm[0]), True), (lambda n: n.get("id") == c["id"], True)))
+                keep_f = gf.projector(atoms((value_pred(fi, hm[0]), True), (lambda n: n.get("id") == c["id"], False)))
+                hs = gf.site_of(hm[0])
+                a = gf.postdominated(hs, {us}, keep=keep_t) and us not in gf.reach([hs], blocked={cond}, keep=keep_f, include_start=False)
+                b = all(gf.postdominated(hs, {cond}, keep=kp) for kp in (keep_t, keep_f, gf.projector(atom_eq(value_pred(fi, hm[0]), False))))
+                strict = f.get("", 0) in (-1, 0) and op == ">="
+                okm = a and b and strict and const_int(cap[0]["args"][0]) == 1
+                detail = "update-iff-greater=%s, every entry visited=%s, comparison %s" % (a, b, describe(c))
+        ck.ob(RULE, sitestr(fi), okm, "running maximum of the numeric captured index over every matching entry (no early exit)" if okm else "maximum computation not recognised/incorrect: %s" % detail,
+              key="findNextIndexForDate|maximum")
+
+
+def dated_before_rotation(ck, S, DF):
+    """typestate: every call of rotate() is preceded, on every path from the sink's entry points, by a write of the file date"""
+    F = ck.facts
+    rt = S.m["rotate"]
+    cls_fns = {f.id: f for f in list(S.m.values()) + [S.send]}
+    INIT = RP + "::m_initialized"
+
+    def writes_in(f):
+        return [n for n in f.find(lambda n: (n.get("k") == "binop" and n.get("op") == "=" and is_this_field(n.get("lhs"), DF))
+                                  or (n.get("k") == "call" and n.get("ck") == "operator" and n.get("op") == "=" and n.get("args") and is_this_field(n["args"][0], DF)))]
+
+    def must_write(f):
+        """f writes the date on every path on which it does anything (the `already initialised` early return is projected away)"""
+        w = writes_in(f)
+        if not w:
+            return False
+        g = S.g(f)
+        keep = g.projector(atom_eq(lambda n: is_this_field(n, INIT), False))
+        return g.must_pass(set(g.sites_of_nodes(w)), keep=keep)
+
+    def dated_at(f, node, depth=0):
+        g = S.g(f)
+        site = g.site_of(node)
+        if site is None:
+            return False, "call has no CFG element"
+        doms = set(g.sites_of_nodes(writes_in(f)))
+        doms |= set(g.sites_of_nodes([c for c in f.calls() if c.get("fn") in cls_fns and c.get("fn") != f.id and must_write(cls_fns[c["fn"]])]))
+        if doms and g.dominated(site, doms):
+            return True, "dated in %s" % strip_tmpl(f.name).split("::")[-1]
+        if depth > 5:
+            return False, "call chain too deep"
+        callers = [(cf, c) for cf in cls_fns.values() for c in cf.calls() if c.get("fn") == f.id]
+        if not callers:
+            return False, "%s is an entry point and has not dated the file at this call" % strip_tmpl(f.name).split("::")[-1]
+        for cf, c in callers:
+            ok, why = dated_at(cf, c, depth + 1)
+            if not ok:
+                return False, "reached through %s, where %s" % (strip_tmpl(cf.name).split("::")[-1], why)
+        return True, "every caller has dated the file"
+
+    sites = [(f, c) for f in cls_fns.values() for c in f.calls() if c.get("fn") == rt.id]
+    ck.require(len(sites) >= 3, "rotate() is called from %d sites, 3 were confirmed by hand" % len(sites))
+    for f, c in sites:
+        ok, why = dated_at(f, c)
+        short = strip_tmpl(f.name).split("::")[-1]
+        ck.ob("C09-O6", sitestr(f, c), ok, "rotate() in %s runs with a dated file (%s)" % (short, why) if ok else
+              "rotate() in %s can run before m_currentLogDate is set (%s): the rotated file is named after the clock, not after the day of its records" % (short, why), key="rotate|undated|%s" % short)
